@@ -41,11 +41,11 @@ def _preprocess(body, macros):
             d = st[1:].strip()
             if d.startswith("pragma"):
                 continue
-            m = re.match(r"(if|elif)\s+(\w+)\s*==\s*(\w+)\s*$", d)
+            m = re.match(r"(if|elif)\s+(\w+)\s*(==|!=)\s*(\w+)\s*$", d)
             if m:
                 if m.group(2) not in macros:
                     raise TranslateError("unknown macro %s" % m.group(2))
-                val = str(macros[m.group(2)]) == m.group(3)
+                val = (str(macros[m.group(2)]) == m.group(4)) == (m.group(3) == "==")
                 if m.group(1) == "if":
                     stack.append([val, val])
                 else:
@@ -251,6 +251,34 @@ def _keys():
     return ck, nk, m1.group(1)
 
 
+def _gate(macros):
+    """the admissibility test of simulation_initializer::run on the number of face types"""
+    s = translate.src("src/io/simulation_initializer.cpp")
+    _, body = X.find_function(s, "simulation_initializer::run")
+    n = _norm(_preprocess(body, macros))
+    if "[](cell_type_param_ptrctp){returnctp->face_types_.size()>0;}" not in n:
+        raise TranslateError("simulation_initializer::run no longer requires one face type per cell type")
+    m = re.search(r"\[\]\(cell_type_param_ptrctp\)\{returnctp->global_type_id_!=0\|\|ctp->face_types_\.size\(\)>=(\d+);\}\)\)\{throw", n)
+    return 1, (int(m.group(1)) if m else 1)
+
+
+def _epi_types(macros):
+    """face-type indices an epithelial cell writes in the shipped configuration"""
+    s = translate.src("include/mesh/cell_types/epithelial_cell.hpp")
+    out = set()
+    for fn in ("special_polarization_update", "update_face_types"):
+        _, body = X.find_function(s, fn)
+        body = _preprocess(body, macros)
+        ks = re.findall(r"set_face_type_id\(\s*(\w+)\s*\)", body)
+        if not ks:
+            raise TranslateError("%s writes no face type" % fn)
+        for k in ks:
+            if not k.isdigit():
+                raise TranslateError("%s writes a non-literal face type %s" % (fn, k))
+            out.add(int(k))
+    return sorted(out)
+
+
 @translate.generator(NAME)
 def gen_population():
     origin = "src/solver.cpp, src/triangulation_modules/cell_divider.cpp, src/contact_models/contact_node_node_via_coupling.cpp"
@@ -259,6 +287,8 @@ def gen_population():
     crit, post = _divider()
     _ctor()
     ck, nk, ckname = _keys()
+    epi = _epi_types(macros)
+    min_all, min_epi = _gate(macros)
     body = """-- GENERATED by tools/gen/c08_population.py from %s — do not edit.
 import SimuVerif.Model.Population
 namespace Simu.Gen.Population
@@ -274,13 +304,20 @@ def code : Code :=
     cellKey := fun c => %s,
     nodeKey := fun n => %s }
 
+/-- the face-type indices `epithelial_cell` writes (`update_face_types`, `special_polarization_update`) -/
+def epiTypesWritten : List Nat := [%s]
+
+/-- number of face types `simulation_initializer::run` demands of every cell type / of an epithelial cell type -/
+def minTypesAll : Nat := %d
+def minTypesEpithelial : Nat := %d
+
 end Simu.Gen.Population
 """ % (origin, macros.get("POLARIZATION_MODE_INDEX"), macros.get("CONTACT_MODEL_INDEX"),
        ", ".join("." + p for p in phases), ", ".join("." + p for p in crit), ", ".join("." + p for p in post),
-       period, ck, nk)
+       period, ck, nk, ", ".join(map(str, epi)), min_all, max(min_all, min_epi))
     if str(macros.get("CONTACT_MODEL_INDEX")) != "1" or str(macros.get("POLARIZATION_MODE_INDEX")) != "1":
         raise TranslateError("the population model describes CONTACT_MODEL_INDEX = 1, POLARIZATION_MODE_INDEX = 1")
     changed = translate.write_if_changed(os.path.join(translate.GEN, NAME + ".lean"), body)
     return {"file": "Gen/%s.lean" % NAME, "origin": origin, "rewritten": changed,
             "sha256": hashlib.sha256(body.encode()).hexdigest()[:16],
-            "phases": phases, "crit": crit, "post": post, "period": period, "cell_key": ckname}
+            "phases": phases, "crit": crit, "post": post, "period": period, "cell_key": ckname, "epi_types_written": epi, "min_face_types": [min_all, max(min_all, min_epi)]}
